@@ -1,7 +1,25 @@
-(* C13 -- theorems are added as they are proved *)
-From Coq Require Import List NArith.
-From BV Require Import Lib.PyStr Model.Rewrite Model.Files.
+(* C13 -- the dry run predicts the real run: when the diff path succeeds the write path succeeds and writes
+   exactly the contents the diff was computed from; when it fails for a reason shared with the write path,
+   the write path fails too and writes nothing.
+   Statements only; the proofs are in Proofs/RewriteFacts.v. *)
+From Coq Require Import List Bool NArith Arith Permutation.
+From BV Require Import Lib.PyStr Gen.Tables Model.Rewrite Proofs.RewriteFacts.
 Import ListNotations.
-Example C13_smoke : detect_line_sep [97;13;98]%N = [13]%N.
-Proof. vm_compute. reflexivity. Qed.
-Print Assumptions C13_smoke.
+
+Theorem C13_dry_ok_real_ok : forall fs changed items sorted_items l, Permutation items sorted_items -> NoDup (map fst items) ->
+   diff_files fs changed sorted_items = (FilesOk, l) ->
+   exists es, rewrite_files_eager fs items = (FilesOk, es) /\ Permutation (writes es) l.
+Proof. exact dry_ok_real_ok. Qed.
+Print Assumptions C13_dry_ok_real_ok.
+
+Theorem C13_dry_error_real_noop : forall fs changed items sorted_items r l, Permutation items sorted_items ->
+  diff_files fs changed sorted_items = (r, l) -> r <> FilesOk ->
+  (forall it c nc, In it sorted_items -> fs (fst it) = Some c -> new_content (snd it) c = Some nc ->
+                   eqb_str nc c && existsb changed (snd it) = false) ->
+  exists r' es, rewrite_files_eager fs items = (r', es) /\ r' <> FilesOk /\ writes es = [].
+Proof. exact dry_error_real_noop. Qed.
+Print Assumptions C13_dry_error_real_noop.
+
+Theorem C13_repo_rewrite_is_eager : REWRITE_FILES_EAGER_V2 = true /\ REWRITE_FILES_EAGER_V1 = true.
+Proof. exact repo_rewrite_is_eager. Qed.
+Print Assumptions C13_repo_rewrite_is_eager.
